@@ -11,6 +11,7 @@ use crate::runner::{run_part, Failure, Known, Part, Verdict};
 use crate::src::Src;
 use crate::stats::Stats;
 use crate::{PropRun, Tier};
+use flsrc::board::Board;
 use flsrc::search::Searcher;
 use refchess::{Color, Kind, Pos};
 use serde_json::{json, Value};
@@ -23,6 +24,22 @@ thread_local! {
     static ENUM_BOUND: Cell<u64> = Cell::new(1_200);
     static SAMPLED_KS: Cell<usize> = Cell::new(120);
     static MAX_T: Cell<u64> = Cell::new(8_000);
+}
+
+thread_local! {
+    /// boards of one long game without a repeated position (700 plies from the start position)
+    static LONG_HISTORY: Vec<flsrc::board::Board> = {
+        let bytes: Vec<u8> = (0..4000u32).map(|i| (i.wrapping_mul(2654435761) >> 13) as u8).collect();
+        let mut s = Src::new(&bytes);
+        let (moves, _, _) = gen::long_game(&mut s, 700);
+        let mut p = Pos::startpos();
+        let mut v = vec![Board::new(&p.fen(0, 1))];
+        for m in moves {
+            p = p.make(m);
+            v.push(Board::new(&p.fen(0, 1)));
+        }
+        v
+    };
 }
 
 struct Interrupted {
@@ -177,6 +194,17 @@ pub fn judge_sequence(p: &Pos, d: u8, seq: &[u64], t: u64, kind: &str, rs: &mut 
         if let Some(m) = h {
             searcher.push_position(&eng::to_board(&m));
         }
+    }
+    // now and then a LONG recorded game (505..700 positions of a full-board game: nothing of it can
+    // occur in the searched tree): a record that is bounded, windowed or indexed shows at that size
+    if k % 13 == 6 {
+        LONG_HISTORY.with(|h| {
+            let n = 505 + (k as usize * 31) % 196;
+            for b in h.iter().take(n) {
+                searcher.push_position(b);
+            }
+        });
+        stats.class("interruptions_with_a_recorded_game_of_more_than_500_positions");
     }
     if preload > 0 {
         stats.class("interruptions_with_a_recorded_game_history");
